@@ -72,11 +72,15 @@ def _main() -> int:
         colored = resolve_color_mode(ColorMode(args.color), stream=sys.stdout)
 
         with PenlogReader(path) as reader:
-            record_generator = reader.records(args.priority, reverse=args.reverse)
+            # Reverse reading starts at the last record
+            offset = -1 if args.reverse and len(reader) > 0 else 0
+            record_generator = reader.records(args.priority, offset=offset, reverse=args.reverse)
             if args.head:
                 record_generator = islice(record_generator, args.lines)
             elif args.tail:
-                record_generator = reader.records(args.priority, offset=-args.lines)
+                record_generator = reader.records(
+                    args.priority, offset=-min(args.lines, len(reader))
+                )
 
             for record in record_generator:
                 record.colored = colored
